@@ -167,8 +167,8 @@ def run_property(prop, tier, seed, only=None, keep=False, jobs=None, replays_dir
     reg = load_contracts()
     from pyvc import verify, replay
     thms = [t for t in reg if prop in t.props and (only is None or any(re.search(o, t.name) for o in only))]
-    evidence_path = os.path.join(VERIF, "evidence", f"{prop}.json")
-    replays_dir = replays_dir or os.path.join(VERIF, "replays", prop)
+    evidence_path = os.path.join(os.environ.get("VERIF_EVIDENCE_DIR") or os.path.join(VERIF, "evidence"), f"{prop}.json")
+    replays_dir = replays_dir or os.path.join(os.environ.get("VERIF_REPLAYS_DIR") or os.path.join(VERIF, "replays"), prop)
     if os.path.isdir(replays_dir):
         shutil.rmtree(replays_dir)
     lines = []
@@ -345,7 +345,10 @@ def run_property(prop, tier, seed, only=None, keep=False, jobs=None, replays_dir
         say(f"CHECKER-ERROR property={prop} {e}")
 
     wall = time.time() - t_start
-    if errors:
+    confirmed = any(v.get("inputs_repr") for v in violations)
+    if confirmed:
+        code = EXIT_VIOLATION      # a failing input replayed on the real code stands on its own
+    elif errors:
         code = EXIT_ERROR
     elif vio_lines:
         code = EXIT_VIOLATION
